@@ -255,6 +255,24 @@ impl<'tcx> Cx<'tcx> {
                 }
             }
         }
+        // pointer to a static / global allocation
+        if let mir::Const::Val(mir::ConstValue::Scalar(rustc_middle::mir::interpret::Scalar::Ptr(ptr, _)), _) = c.const_ {
+            let aid = ptr.provenance.alloc_id();
+            match self.tcx.global_alloc(aid) {
+                rustc_middle::mir::interpret::GlobalAlloc::Static(d) => {
+                    items.push(("static", js(&self.path(d))));
+                }
+                rustc_middle::mir::interpret::GlobalAlloc::Memory(m) => {
+                    let ia = m.inner();
+                    if ia.provenance().ptrs().is_empty() && ia.len() <= 4096 {
+                        let bytes = ia.inspect_with_uninit_and_ptr_outside_interpreter(0..ia.len());
+                        let b: Vec<String> = bytes.iter().map(|x| x.to_string()).collect();
+                        items.push(("bytes", jlist(b)));
+                    }
+                }
+                _ => {}
+            }
+        }
         // promoted / unevaluated reference
         if let mir::Const::Unevaluated(u, _) = c.const_ {
             if let Some(p) = u.promoted {
@@ -276,7 +294,7 @@ impl<'tcx> Cx<'tcx> {
         }
     }
 
-    fn rvalue(&self, rv: &Rvalue<'tcx>, env: ty::TypingEnv<'tcx>) -> String {
+    fn rvalue(&self, rv: &Rvalue<'tcx>, env: ty::TypingEnv<'tcx>, body: &Body<'tcx>) -> String {
         match rv {
             Rvalue::Use(o, _) => jobj(vec![("r", js("use")), ("a", self.operand(o, env))]),
             Rvalue::Repeat(o, n) => jobj(vec![
@@ -310,6 +328,7 @@ impl<'tcx> Cx<'tcx> {
                     ("kind", js(&ks)),
                     ("a", self.operand(o, env)),
                     ("ty", self.ty(*t)),
+                    ("from", self.ty(o.ty(body, self.tcx))),
                 ])
             }
             Rvalue::BinaryOp(op, ab) => jobj(vec![
@@ -317,11 +336,14 @@ impl<'tcx> Cx<'tcx> {
                 ("op", js(&format!("{:?}", op))),
                 ("a", self.operand(&ab.0, env)),
                 ("b", self.operand(&ab.1, env)),
+                ("ta", self.tk(ab.0.ty(body, self.tcx), 0)),
+                ("tb", self.tk(ab.1.ty(body, self.tcx), 0)),
             ]),
             Rvalue::UnaryOp(op, a) => jobj(vec![
                 ("r", js("un")),
                 ("op", js(&format!("{:?}", op))),
                 ("a", self.operand(a, env)),
+                ("ta", self.tk(a.ty(body, self.tcx), 0)),
             ]),
             Rvalue::Discriminant(p) => jobj(vec![("r", js("discr")), ("p", self.place(p))]),
             Rvalue::Aggregate(k, ops) => {
@@ -560,9 +582,13 @@ impl<'tcx> Cx<'tcx> {
                         stmts.push(jobj(vec![
                             ("s", js("assign")),
                             ("lhs", self.place(p)),
-                            ("rv", self.rvalue(rv, env)),
+                            ("rv", self.rvalue(rv, env, body)),
+                            ("lty", self.tk(p.ty(body, self.tcx).ty, 0)),
                             ("sp", self.span(s.source_info.span)),
                         ]));
+                    }
+                    StatementKind::StorageDead(l) => {
+                        stmts.push(jobj(vec![("s", js("dead")), ("l", l.as_usize().to_string())]));
                     }
                     StatementKind::SetDiscriminant { place, variant_index } => {
                         stmts.push(jobj(vec![
